@@ -50,7 +50,7 @@ def main(argv: List[str]) -> int:
             m = o.model or {}
             return False, {"key": f"{label}:post", "what": f"{label.split('::')[-1]} no longer computes '{contract.note}'", "model": {k: v for k, v in m.items() if not k.startswith('hasattr')}}
 
-        verify(run, stats, world, interp, fi, contract, label, on_fail)
+        verify(run, stats, world, interp, fi, contract, label, on_fail, lambda msg, label=label: run.notes.append(f"{label}: outside the verified subset ({msg}); the exhaustive per-attribute table and the toggle / constructor sweeps stand in (bounded in the surrounding value)"))
     # ---- evaluated: every attribute, both class orders (the rule must not depend on which class a converter saw first)
     decls = all_class_decls(mm)
     res = check_classes(live, mm, decls)
